@@ -21,11 +21,11 @@ def run(ctx):
                     for f in sorted(glob.glob(os.path.join(ROOT, "corpus", "C11", "*.txt")))]
             if ctx.tier == "quick":
                 runs += [("random-real", ["-mode", "random", "-world", "real", "-cases", "400", "-len", "30"]),
-                         ("random-shadow", ["-mode", "random", "-world", "shadow", "-cases", "400", "-len", "30"]),
+                         ("random-shadow", ["-mode", "random", "-world", "shadow", "-nofaults", "-cases", "400", "-len", "30"]),
                          ("conc", ["-mode", "conc", "-cases", "150"])]
             else:
                 runs += [("random-real", ["-mode", "random", "-world", "real", "-cases", "6000", "-len", "40"]),
-                         ("random-shadow", ["-mode", "random", "-world", "shadow", "-cases", "6000", "-len", "40"]),
+                         ("random-shadow", ["-mode", "random", "-world", "shadow", "-nofaults", "-cases", "6000", "-len", "40"]),
                          ("conc", ["-mode", "conc", "-cases", "3000"])]
         traces = sm.run_traces(ctx, hx, runs, "C11")
     ctx.cov["rule"] = ("random-real = seeded random sequences of New/CreateRandom/WithBytes/WithBytesFunc (nested 0-2)/NewReader+Read/Close/IsClosed "
